@@ -71,6 +71,8 @@ class Truth:
         self.keys = keys           # name -> (col,row,code)
         self.kol = 0 if cfg["active_high"] else 0xFF
         self.koh = 0 if cfg["active_high"] else 0x0F
+        if cfg.get("via_setter"):
+            self.kol = self.koh = 0      # Rust power-on strobe registers; no KOL/KOH write precedes the history
         self.held = {}
         self.since_release = {}    # scan ticks since release (key was held before)
         self.consec = {}           # consecutive scan ticks held & strobed
@@ -116,6 +118,8 @@ def gen_history(r, keys, n, cfg, redundant=False, norelease=False):
     init_kol = 0 if cfg["active_high"] else 0xFF
     init_koh = 0 if cfg["active_high"] else 0x0F
     ops = [("kol", init_kol), ("koh", init_koh)]   # both models start from the same explicit strobe state
+    if cfg.get("via_setter"):
+        ops = []       # Rust only: polarity set through set_columns_active_high(), strobe registers left at power-on 0
     held = set()
     for _ in range(n):
         roll = r.random()
@@ -511,6 +515,10 @@ def run_shard(spec) -> Result:
             ops = gen_history(r, keys, r.randrange(50, 120 if spec["tier"] == "quick" else 300), cfg, redundant=red,
                               norelease=(not red and r.random() < 0.45))
             jobs.append((dict(cfg, redundant=red), ops, keys))
+            if r.random() < 0.25:
+                cfg2 = dict(cfg, via_setter=True)
+                ops2 = gen_history(r, keys, r.randrange(30, 90), cfg2, redundant=False, norelease=r.random() < 0.45)
+                jobs.append((dict(cfg2, redundant=False, rust_only=True), ops2, keys))
     else:
         import itertools
         names = ["KEY_Q", "KEY_W", "KEY_A"]   # Q:(0,1) W:(1,0) A:(0,3): two share a column
@@ -527,6 +535,8 @@ def run_shard(spec) -> Result:
         res.count("enumerated_histories", len(jobs))
     # Python
     for cfg, ops, keys in jobs:
+        if cfg.get("rust_only"):
+            continue
         res.evaluations += 1
         ok = run_py(res, cfg, ops, keys)
         if ok:
